@@ -102,7 +102,8 @@ def body_process(case, rec):
                 sib = d / f"sib_{tag}"
                 sib.mkdir()
                 cwd, a, p, o = sib, Path("..") / "in" / src.name, Path("..") / "in" / mp.name, Path("..") / outd.name / f"x.1.{ext}"
-            r = remap.run_cli_subprocess(["-a", a, "-p", p, "-o", o, "-c", prefix], cwd=cwd, hashseed=hashseed)
+            extra = ["--log-level", "DEBUG"] if case.get("debug_log") else []
+            r = remap.run_cli_subprocess(["-a", a, "-p", p, "-o", o, "-c", prefix, *extra], cwd=cwd, hashseed=hashseed)
             return r.returncode, files_of(outd, drop=(d,)) if r.returncode == 0 else sorted(f.name for f in outd.iterdir() if not f.name.endswith(".log"))
 
         base_code, base = go("base", "0", "abs")
@@ -438,6 +439,8 @@ def process_cases(draw):
 def _with_stale(c, k):
     if k == 0:
         c["stale_between"] = True
+    elif k == 1:
+        c["debug_log"] = True  # the log then holds the scaffolds' string forms (names, rows, tags)
     return c
 
 
